@@ -65,6 +65,20 @@ Proof. induction a as [ | [ | z | z | ] a IH]; intros b; simpl; rewrite ?IH; ref
 
 Ltac dinv H := destruct H as [Hscr [lost [Hcons Hlost]] Hexit Hlate Hnost Hinit Hpipe Hend Hbusy Hdl].
 
+Ltac fin :=
+  try (match goal with Hc : ?em = _ ++ _ ++ ?lost |- exists _, ?em = _ /\ _ => exists lost; split; [exact Hc | auto] end; fail);
+  try (match goal with
+       | Hp : (if nosent ?p then _ else _) |- if nosent ?p then _ else _ =>
+         destruct (nosent p);
+         [ let Hm := fresh "Hm" in intros Hm; try discriminate; destruct (Hp Hm) as [_ [E | E]]; discriminate
+         | destruct Hp as [? [E ?]]; try discriminate; repeat split; auto; discriminate ] end; fail);
+  try (rewrite deliveries_app; simpl; rewrite ?app_nil_r; assumption);
+  try (match goal with Hi : ?m = PInit -> _ = CNotStarted |- ?m = PInit -> _ =>
+         let X := fresh "X" in intros X; specialize (Hi X); discriminate end);
+  try (match goal with Hn : ?c = CNotStarted -> _ = PInit |- ?c = CNotStarted -> _ =>
+         let X := fresh "X" in intros X; specialize (Hn X); discriminate end);
+  try (intros; discriminate).
+
 Lemma step_inv : forall boot script s l, inv script s -> inv script (step boot s l).
 Proof.
   intros boot script s l H.
@@ -72,19 +86,11 @@ Proof.
   destruct l; unfold step; simpl.
   - (* StartProc *)
     destruct mp; try exact H. dinv H; simpl in *.
-    constructor; simpl; auto; try discriminate.
-    + exists lost. split; auto. intros _. apply Hlost. rewrite (Hinit eq_refl). discriminate.
-    + intros Hc; discriminate.
-    + destruct (nosent pp); [ | destruct Hpipe as [_ [E _]]; discriminate].
-      intros Hm. destruct (Hpipe Hm) as [_ [E | E]]; discriminate.
+    constructor; simpl; auto; try discriminate; fin.
+    exists lost. split; auto. intros _. apply Hlost. rewrite (Hinit eq_refl). discriminate.
   - (* StartRun *)
     destruct mp; try exact H. dinv H; simpl in *.
-    constructor; simpl; auto; try discriminate.
-    + exists lost. auto.
-    + intros Hc. specialize (Hnost Hc). discriminate.
-    + destruct (nosent pp); [ | destruct Hpipe as [_ [E _]]; discriminate].
-      intros Hm. destruct (Hpipe Hm) as [_ [E | E]]; discriminate.
-    + rewrite deliveries_app. simpl. rewrite app_nil_r. exact Hdl.
+    constructor; simpl; auto; try discriminate; fin.
   - (* Emit *)
     destruct ch; try exact H. destruct td as [ | z r]; try exact H.
     destruct (boot && before_start_run mp); try exact H.
@@ -108,38 +114,25 @@ Proof.
   - (* ChildExit *)
     destruct ch; try exact H. destruct td; try exact H. destruct bf; try exact H.
     dinv H; simpl in *.
-    constructor; simpl; auto; try discriminate.
+    constructor; simpl; auto; try discriminate; fin.
     exists lost. split; auto. intros _. apply Hlost. discriminate.
   - (* Kill *)
     destruct ch; try exact H. dinv H; simpl in *.
-    constructor; simpl; auto; try discriminate.
+    constructor; simpl; auto; try discriminate; fin.
     exists lost. split; auto. intros C; exfalso; apply C; reflexivity.
   - (* KillMidWrite *)
     destruct ch; try exact H. dinv H; simpl in *.
-    constructor; simpl; auto; try discriminate.
+    constructor; simpl; auto; try discriminate; fin.
     exists lost. split; auto. intros C; exfalso; apply C; reflexivity.
   - (* ProcExitSeen *)
-    destruct mp; try exact H. destruct ch; try exact H; dinv H; simpl in *.
-    + constructor; simpl; auto; try discriminate.
-      * exists lost. auto.
-      * destruct (nosent pp); [ | destruct Hpipe as [_ [E _]]; discriminate].
-        intros Hm. destruct (Hpipe Hm) as [_ [E | E]]; discriminate.
-    + constructor; simpl; auto; try discriminate.
-      * exists lost. auto.
-      * destruct (nosent pp); [ | destruct Hpipe as [_ [E _]]; discriminate].
-        intros Hm. destruct (Hpipe Hm) as [_ [E | E]]; discriminate.
+    destruct mp; try exact H. destruct ch; try exact H; dinv H; simpl in *;
+      constructor; simpl; auto; try discriminate; fin.
   - (* DrainTick *)
     destruct mp; try exact H. destruct (pipe_empty pp); try exact H. dinv H; simpl in *.
-    constructor; simpl; auto; try discriminate.
-    + exists lost. auto.
-    + destruct (nosent pp); [ | destruct Hpipe as [_ [E _]]; discriminate].
-      intros Hm. destruct (Hpipe Hm) as [_ [E | E]]; discriminate.
+    constructor; simpl; auto; try discriminate; fin.
   - (* Timeout *)
     destruct mp; try exact H. dinv H; simpl in *.
-    constructor; simpl; auto; try discriminate.
-    + exists lost. auto.
-    + destruct (nosent pp); [ | destruct Hpipe as [_ [E _]]; discriminate].
-      intros Hm. destruct (Hpipe Hm) as [_ [E | E]]; discriminate.
+    constructor; simpl; auto; try discriminate; fin.
   - (* PutSentinel *)
     destruct mp; try exact H. dinv H; simpl in *.
     assert (Hns : nosent pp = true).
@@ -147,7 +140,7 @@ Proof.
     rewrite Hns in Hpipe.
     assert (Hmn : mn <> MDone).
     { intros Hm. destruct (Hpipe Hm) as [_ [E | E]]; discriminate. }
-    constructor; simpl; auto; try discriminate.
+    constructor; simpl; auto; try discriminate; fin.
     + exists lost. split; auto. destruct wd; auto. rewrite evs_app. simpl. rewrite app_nil_r. exact Hcons.
     + destruct wd.
       * rewrite Hns. intros Hm. contradiction.
@@ -161,31 +154,25 @@ Proof.
       * intros Hm; discriminate.
       * destruct Hpipe as [E1 [E2 _]]. repeat split; auto. discriminate.
     + intros Hm. specialize (Hend Hm). discriminate.
-    + intros z0 Hz. inversion Hz; subst. exists dl. reflexivity.
+    + intros z0 Hz. inversion Hz. eexists. reflexivity.
     + rewrite deliveries_app. simpl. rewrite Hdl. reflexivity.
   - (* MonDeliver *)
     destruct mn; try exact H. dinv H; simpl in *.
-    constructor; simpl; auto; try discriminate.
-    + exists lost. auto.
-    + destruct (nosent pp).
-      * intros Hm; discriminate.
-      * destruct Hpipe as [E1 [E2 _]]. repeat split; auto. discriminate.
-    + intros Hm. specialize (Hend Hm). discriminate.
-    + rewrite deliveries_app. simpl. rewrite app_nil_r. exact Hdl.
+    constructor; simpl; auto; try discriminate; fin.
+    intros Hm. specialize (Hend Hm). discriminate.
   - (* MonSeesSentinel *)
     destruct mn; try exact H. destruct pp as [ | [z | ] r]; try exact H.
     dinv H; simpl in *.
-    destruct Hpipe as [E1 [E2 _]]. destruct r; try discriminate.
-    constructor; simpl; auto; try discriminate.
-    + exists lost. auto.
+    destruct Hpipe as [E1 [E2 _]]. destruct r; try discriminate. simpl in Hcons.
+    constructor; simpl; auto; try discriminate; fin.
+    + exists lost. split; auto.
     + intros Hm. subst mp. discriminate.
   - (* EndRun *)
     destruct mp; try exact H. destruct mn; try exact H. dinv H; simpl in *.
     destruct (nosent pp) eqn:Hns.
     + destruct (Hpipe eq_refl) as [Ep _]. subst pp.
-      constructor; simpl; auto; try discriminate.
-      * exists lost. auto.
-      * rewrite deliveries_app. simpl. rewrite app_nil_r. exact Hdl.
+      constructor; simpl; auto; try discriminate; fin.
+      exists lost. split; auto.
     + destruct Hpipe as [_ [_ C]]. exfalso; apply C; reflexivity.
 Qed.
 
